@@ -1001,6 +1001,8 @@ def ordered_arguments(
 
   if include_var_keyword:
     for name, value in buildable.__arguments__.items():
+      if not isinstance(name, str):
+        continue  # Positional arguments (int keys) are handled above.
       param = buildable.__signature_info__.parameters.get(name)
       if param is None or param.kind == param.VAR_KEYWORD:
         result[name] = value
